@@ -252,7 +252,7 @@ func TestFaultEnumeration(t *testing.T) {
 		}
 		pruned := len(m1.Blocks) < len(m0.Blocks) || m1.Pruned && !m0.Pruned
 		// a follow-up block for the transaction after the fault
-		g2 := &opGen{e: &env{pool: pool, rec: recFault}, uniq: rg.uniq}
+		g2 := &opGen{e: &env{pool: pool, rec: recFault, maxFile: maxFile}, uniq: rg.uniq}
 		fi := g2.newBlock(t)
 		pool = g2.e.pool
 		followUp := recTx{Commit: true, Ops: []Op{{K: "store", B: []int{fi}}, {K: "put", Name: "after-fault", Val: []byte("x")}}}
